@@ -11,7 +11,9 @@
         good v   a recognised, well-typed value (booleans; strings that spell a boolean in any
                  letter case, surrounded by blanks; integral numbers; strings that spell a
                  decimal integer; for the path: any string), already validated: a non-positive
-                 count stands for the default, an empty path stands for the default
+                 count stands for the default, an empty path stands for the default, a width
+                 above its documented maximum (indentSize 32, minAlignmentColumn 500) stands
+                 for that maximum
         bad      ill-typed: leaves the field alone
         unspec   the statement does not say (a number with a fractional part, beyond ±2^53
                  where float64 is no longer exact, a timeout whose nanosecond value leaves
@@ -118,9 +120,19 @@ def readInt (bound : Int) : Json → Option (Option Int)   -- none = bad, some n
       else some none
   | _ => none
 
-/-- validation of a count: non-positive stands for the default -/
+/-- docs/configuration.md: the settings with a documented maximum -/
+def maxOf : Leaf → Option Int
+  | .oIndentSize => some 32
+  | .oMinAlignmentColumn => some 500
+  | _ => none
+
+/-- validation of a count: non-positive stands for the default, a value above the documented
+    maximum for the maximum -/
 def validCount (l : Leaf) (v : Int) : Val :=
-  if v ≤ 0 then get defaults l else .i v
+  if v ≤ 0 then get defaults l
+  else match maxOf l with
+    | some m => if v > m then .i m else .i v
+    | none => .i v
 
 def readLeaf (l : Leaf) (j : Json) : Class :=
   match kindOf l with
@@ -158,16 +170,6 @@ def levelsIn : List (String × Json) → List (List (String × Json))
   | (k, v) :: r => if k = "hledger" then levels v else levelsIn r
 end
 
-mutual
-/-- the chain ends in a `hledger` member that is not an object (`{"hledger": 5, …}`) -/
-def deadEnd : Json → Bool
-  | .obj kvs => deadEndIn kvs
-  | _ => true
-def deadEndIn : List (String × Json) → Bool
-  | [] => false
-  | (k, v) :: r => if k = "hledger" then deadEnd v else deadEndIn r
-end
-
 /-- the mentions of field `l` in one object -/
 def mentionsIn (l : Leaf) (kvs : List (String × Json)) : List Class :=
   docTree.flatMap fun (sec, name, l') =>
@@ -181,12 +183,8 @@ def mentionsIn (l : Leaf) (kvs : List (String × Json)) : List Class :=
 def mentions (l : Leaf) (lv : List (List (String × Json))) : List Class :=
   lv.flatMap (mentionsIn l)
 
-/-- equality of field values as far as behaviour goes: a negative minimum alignment column
-    behaves as 0 (the documented "no minimum"), so the two are not told apart -/
-def agree (l : Leaf) (a b : Val) : Bool :=
-  match l, a, b with
-  | .oMinAlignmentColumn, .i x, .i y => (if x < 0 then 0 else x) = (if y < 0 then 0 else y)
-  | _, a, b => a = b
+/-- the stored value is the validated one -/
+def agree (_ : Leaf) (a b : Val) : Bool := a = b
 
 def goods : List Class → List Val
   | [] => []
@@ -201,9 +199,12 @@ def leafOk (l : Leaf) (lv : List (List (String × Json))) (prev res : Settings) 
     | [] => agree l (get prev l) (get res l)
     | gs => gs.any fun g => agree l g (get res l)
 
-/-- the stored settings a payload is applied to are always validated ones -/
+/-- the stored settings a payload is applied to are always validated ones: counts positive,
+    widths inside their documented ranges, the path not empty -/
 def valid (s : Settings) : Bool :=
-  decide (0 < s.completion.maxResults) && decide (0 < s.formatting.indentSize) &&
+  decide (0 < s.completion.maxResults) &&
+  decide (0 < s.formatting.indentSize) && decide (s.formatting.indentSize ≤ 32) &&
+  decide (0 ≤ s.formatting.minAlignmentColumn) && decide (s.formatting.minAlignmentColumn ≤ 500) &&
   decide (s.cli.path ≠ "") && decide (0 < s.cli.timeout) &&
   decide (0 < s.limits.maxFileSizeBytes) && decide (0 < s.limits.maxIncludeDepth)
 
@@ -218,24 +219,6 @@ def failingLeaves (lv : List (List (String × Json))) (prev res : Settings) : Li
 def specOk (prev : Settings) (payload : Json) (res : Settings) : Bool :=
   specOkAt (levels payload) prev res && valid res
 
-/-- the innermost object of the chain — the only one the code reads; none when the chain
-    ends in a `hledger` member that is not an object -/
-def innermost (payload : Json) : List (List (String × Json)) :=
-  if deadEnd payload then [] else
-  match (levels payload).getLast? with
-  | some kvs => [kvs]
-  | none => []
-
-/-- the objects of the chain the code does not read -/
-def shadowed (payload : Json) : List (List (String × Json)) :=
-  if deadEnd payload then levels payload else (levels payload).dropLast
-
-/-- Guard of the known finding `wrapper-shadows-siblings`: an object of the wrapper chain that
-    has a `hledger` member carries, next to it, a recognised well-typed setting (the code
-    descends into the `hledger` member — whatever its type — and never looks at the siblings). -/
-def wrapperShadows (payload : Json) : Bool :=
-  (shadowed payload).any fun kvs => Leaf.all.any fun l => (goods (mentionsIn l kvs)) ≠ []
-
 /-! ### effect on behaviour: the probes of harness/c19.go (`observe`) -/
 
 /-- What the fixed probe scenario must show for given stored settings.  Scenario constants:
@@ -246,8 +229,10 @@ structure Obs where
   completionItems : Int
   subsequenceItems : Int
   countsShown : Bool
-  /-- none = the probe is skipped (width between 10^3 and 2^50), some none = the handler
-      panics, some (some (indent, column)) -/
+  /-- none = the probe is skipped (the harness does not ask for a width above 1000: only a
+      recurrence of the unbounded-width defect could store one, and the formatter would
+      allocate that much), some none = the handler panics,
+      some (some (indent, column)) -/
   format : Option (Option (Int × Int))
   hoverAnswers : Bool
   inline : Option (Option (Int × Int))      -- items, indent
@@ -258,43 +243,24 @@ structure Obs where
   includeTooLarge : Bool
   deriving Repr, DecidableEq
 
-def widthMid (v : Int) : Bool := decide (1000 < v) && decide (v < 2 ^ 50)
-def widthHuge (v : Int) : Bool := decide (2 ^ 50 ≤ v)
+def widthSkipped (v : Int) : Bool := decide (1000 < v) && decide (v < 2 ^ 50)
 
 def diagDocBytes : Int := 161
-def includeMainBytes : Int := 25
-def includeABytes : Int := 72
 
 def imin (a b : Int) : Int := if a ≤ b then a else b
 def imax (a b : Int) : Int := if a ≤ b then b else a
 
-/-- The include probe: `main` (25 bytes) includes `a` (72 bytes) includes `b` (22) includes
-    `c` (4).  Files are numbered a = 1, b = 2, c = 3; `cache` lists the files the loader holds
-    from earlier probes in the same directory.  With the repaired loader a cached file only
-    saves reading and parsing (so its SIZE is not checked again), but the depth is checked and
-    its own includes are followed; a file is cached as soon as it has been parsed, before the
-    depth test.  Result: depth-limit diagnostic, too-large diagnostic, cache afterwards. -/
-def includeSize : Nat → Int
-  | 1 => 72 | 2 => 22 | _ => 4
+/-- **The stored limits govern the load, whatever was loaded before**: the include probe
+    (`main` → `a` → `b` → `c`, see `HL.Settings.includeProbe`) as a loader with an empty cache
+    answers it. -/
+def includeVerdict (L D : Int) : Bool × Bool :=
+  let r := HL.Settings.includeProbe [] L D
+  (r.1, r.2.1)
 
-def includeFrom (L D : Int) : Nat → Nat → List Nat → Bool × Bool × List Nat
-  | 0, _, cache => (false, false, cache)
-  | fuel + 1, k, cache =>
-    if k > 3 then (false, false, cache)
-    else
-      let cached := cache.contains k
-      if !cached && includeSize k > L then (false, true, cache)
-      else
-        let cache1 := if cached then cache else k :: cache
-        if D ≤ (k : Int) then (true, false, cache1)
-        else includeFrom L D fuel (k + 1) cache1
-
-def includeProbe (cache : List Nat) (L D : Int) : Bool × Bool × List Nat :=
-  if L < includeMainBytes then (false, true, cache) else includeFrom L D 4 1 cache
-
-/-- `cache`: loader cache for the probe directory; `client`: the server has a client to
-    publish to. -/
-def expectedObs (s : Settings) (client : Bool) (cache : List Nat) : Obs × List Nat :=
+/-- `client`: the server has a client to publish to; `verdict L D`: what the include probe
+    reports (depth limit exceeded, included file too large).  No handler fails, for any
+    settings. -/
+def expectedObsAt (s : Settings) (client : Bool) (verdict : Int → Int → Bool × Bool) : Obs :=
   let mr := s.completion.maxResults
   let cap (n : Int) : Int := if 0 < mr then imin n mr else n
   let ind := s.formatting.indentSize
@@ -303,29 +269,30 @@ def expectedObs (s : Settings) (client : Bool) (cache : List Nat) : Obs × List 
   let L := s.limits.maxFileSizeBytes
   let D := s.limits.maxIncludeDepth
   let loads := client && diag
-  let (dep, big, cache') := if loads then includeProbe cache L D else (false, false, cache)
-  ({ completionItems := cap (if s.completion.fuzzyMatching then 8 else 6)
-     subsequenceItems := cap (if s.completion.fuzzyMatching then 8 else 0)
-     countsShown := s.completion.showCounts
-     format :=
-       if widthMid ind || widthMid mac then none
-       else if widthHuge ind || (s.formatting.alignAmounts && widthHuge mac) then some none
-       else some (some (ind,
-         if s.formatting.alignAmounts then imax (ind + 13 + 2) (if 0 < mac then mac else 0)
-         else ind + 3 + 2))
-     hoverAnswers := true
-     inline :=
-       if widthMid ind then none
-       else if !s.features.inlineCompletion then some (some (0, -1))
-       else if widthHuge ind then some none
-       else some (some (1, ind))
-     published := if client then 1 else 0
-     codes := if !loads then [] else
-       (if s.diagnostics.unbalancedTransactions then ["UNBALANCED"] else []) ++
-       (if s.diagnostics.undeclaredAccounts then ["UNDECLARED_ACCOUNT"] else []) ++
-       (if s.diagnostics.undeclaredCommodities then ["UNDECLARED_COMMODITY"] else [])
-     docTooLarge := loads && decide (L < diagDocBytes)
-     depthExceeded := dep
-     includeTooLarge := big }, cache')
+  let (dep, big) := if loads then verdict L D else (false, false)
+  { completionItems := cap (if s.completion.fuzzyMatching then 8 else 6)
+    subsequenceItems := cap (if s.completion.fuzzyMatching then 8 else 0)
+    countsShown := s.completion.showCounts
+    format :=
+      if widthSkipped ind || widthSkipped mac then none
+      else some (some (ind,
+        if s.formatting.alignAmounts then imax (ind + 13 + 2) (if 0 < mac then mac else 0)
+        else ind + 3 + 2))
+    hoverAnswers := true
+    inline :=
+      if widthSkipped ind then none
+      else if !s.features.inlineCompletion then some (some (0, -1))
+      else some (some (1, ind))
+    published := if client then 1 else 0
+    codes := if !loads then [] else
+      (if s.diagnostics.unbalancedTransactions then ["UNBALANCED"] else []) ++
+      (if s.diagnostics.undeclaredAccounts then ["UNDECLARED_ACCOUNT"] else []) ++
+      (if s.diagnostics.undeclaredCommodities then ["UNDECLARED_COMMODITY"] else [])
+    docTooLarge := loads && decide (L < diagDocBytes)
+    depthExceeded := dep
+    includeTooLarge := big }
+
+/-- **The statement**: the probes show the stored settings in effect. -/
+def expectedObs (s : Settings) (client : Bool) : Obs := expectedObsAt s client includeVerdict
 
 end HL.SettingsSpec
